@@ -18,8 +18,10 @@ The optimiser-based fitters draw their start vectors with np.random.rand: the dr
 intercepted (mc.rngenv) and answered from a finite menu; every menu entry is explored at every
 call site and each resulting execution must reach the optimum.
 """
+import contextlib
 import itertools
 import math
+import signal
 
 import numpy as np
 
@@ -95,6 +97,10 @@ BOUNDS = {
 DEADLINE = {'quick': 400, 'thorough': 3000}
 
 STIM = [12, 10, 13, 11, 14]           # unsorted descriptor values: position != sorted rank
+BIG = [100003, 100001, 100004, 100002, 100000]   # six-digit, close together, not ascending
+DESCS = ['index', 'stim', 'big']
+SCALES = {'data': (1e-8, 1.0, 1e6), 'basis': (1e-8, 1.0, 1e6), 'sigma': (1e-10, 1.0, 1e6)}
+CLOSED = ('fit_regress', 'fit_regress_nn', 'fit_select', 'fit_interpolate')
 NAMES = ['cq', 'ab', 'zz', 'cA', 'b0']
 METHSIG = [('cosine', 'none'), ('corr', 'none'), ('cosine_cov', 'none'), ('cosine_cov', 'spd'),
            ('corr_cov', 'none'), ('corr_cov', 'spd')]
@@ -159,7 +165,7 @@ def _sigma(kind, n_sel, seed):
 
 
 def _desc_values(desc, n_cond):
-    return list(range(n_cond)) if desc == 'index' else STIM[:n_cond]
+    return {'index': list(range(n_cond)), 'stim': STIM[:n_cond], 'big': BIG[:n_cond]}[desc]
 
 
 def index_vectors(n, tier):
@@ -211,7 +217,7 @@ def shards(tier, seed):
                             if thorough and len(mask) == 2 and (n_data != 2 or fill != 0):
                                 continue      # all 15 two-entry masks for one stack size / fill
                             for method, sigma in METHSIG:
-                                desc = 'stim' if (k + n_data + mi + len(method)) % 2 else 'index'
+                                desc = DESCS[(k + n_data + mi + len(method)) % 3]
                                 out.append({'kind': 'weighted', 'fitter': fitter, 'n_cond': n_cond,
                                             'k': k, 'n_data': n_data, 'fill': fill, 'mask': mask,
                                             'desc': desc, 'method': method, 'sigma': sigma,
@@ -221,11 +227,11 @@ def shards(tier, seed):
     for fitter in ('fit_optimize', 'fit_optimize_positive', 'Model.fit'):
         for method, sigma in METHSIG:
             if not thorough:
-                cfgs = [(4, 2, 2, 0, [], 'stim', 1), (4, 2, 2, 2, [], 'index', 1)]
+                cfgs = [(4, 2, 2, 0, [], 'stim', 1), (4, 2, 2, 2, [], 'big', 1)]
             else:       # (n_cond, k, n_data, fill, mask, descriptor, every n-th index multiset)
                 cfgs = [(4, 2, 2, 0, [], 'stim', 1), (4, 3, 2, 2, [], 'stim', 1),
                         (4, 2, 1, 0, [], 'index', 3), (4, 2, 3, 2, [2], 'stim', 3),
-                        (4, 2, 2, 1, [], 'index', 3), (4, 3, 2, 0, [], 'index', 3),
+                        (4, 2, 2, 1, [], 'big', 3), (4, 3, 2, 0, [], 'index', 3),
                         (5, 2, 2, 0, [0, 9], 'stim', 16), (5, 3, 3, 2, [], 'index', 16)]
             for n_cond, k, n_data, fill, mask, desc, stride in cfgs:
                 sh = {'kind': 'weighted', 'fitter': fitter, 'n_cond': n_cond, 'k': k,
@@ -259,7 +265,7 @@ def shards(tier, seed):
                         masks = [[], [2]] if (n_cond == 4 and fill == 0 and not via_model) else [[]]
                         for mi, mask in enumerate(masks):
                             for method, sigma in METHSIG:
-                                desc = 'stim' if (k + n_data + mi + len(method)) % 2 else 'index'
+                                desc = DESCS[(k + n_data + mi + len(method)) % 3]
                                 out.append({'kind': 'candidates', 'fitter': fitter, 'n_cond': n_cond,
                                             'k': k, 'n_data': n_data, 'fill': fill, 'mask': mask,
                                             'desc': desc, 'method': method, 'sigma': sigma,
@@ -295,6 +301,13 @@ def shards(tier, seed):
                     out.append({'kind': 'sequences', 'model': mkind, 'rep': rep, 'n_cond': n_cond,
                                 'k': k, 'n_data': 2, 'fill': 0, 'first': first,
                                 'length': 3 if (thorough and mkind == 'weighted' and n_cond == 4) else 2})
+    # I: scale family (closed-form fitters): data / basis RDMs x 1e-8, 1e6, sigma_k x 1e-10, 1e6;
+    #    direction of the optimum and attained score do not depend on any of these factors
+    for fitter in CLOSED:
+        for n_cond, k, n_data, fill in (((5, 3, 2, 0), (4, 2, 1, 2), (5, 2, 3, 1)) if thorough else ((5, 3, 2, 0),)):
+            for method, sigma in METHSIG:
+                out.append({'kind': 'scale', 'fitter': fitter, 'n_cond': n_cond, 'k': k, 'n_data': n_data,
+                            'fill': fill, 'mask': [], 'desc': 'big', 'method': method, 'sigma': sigma})
     # F: sigma_k forms accepted by compare() but not documented for the fitters (report only)
     out.append({'kind': 'sigma_forms'})
     return out
@@ -323,7 +336,12 @@ def _build(case, seed, basis=None, data_full=None, lib_subsample=False):
     pattern_idx = None if idx is None else [dvals[p] for p in idx]
     positions = ref.select_positions(dvals, pattern_idx)
     data_sel = [ref.subsample(d, positions) for d in data_full]
-    pdesc = {'stim': np.array(STIM[:n_cond])}
+    sc_d, sc_b, sc_s = case.get('scale') or (1.0, 1.0, 1.0)
+    if (sc_d, sc_b) != (1.0, 1.0):       # the reference sees the same scaled values
+        basis = [[v * sc_b for v in r] for r in basis]
+        data_full = [[v * sc_d for v in r] for r in data_full]
+        data_sel = [ref.subsample(d, positions) for d in data_full]
+    pdesc = {'stim': np.array(STIM[:n_cond]), 'big': np.array(BIG[:n_cond])}
     rdm_obj = RDMs(np.array(basis, dtype=float), pattern_descriptors=dict(pdesc))
     kind = _model_kind(case)
     cls = {'weighted': M.ModelWeighted, 'select': M.ModelSelect, 'interpolate': M.ModelInterpolate}[kind]
@@ -333,8 +351,12 @@ def _build(case, seed, basis=None, data_full=None, lib_subsample=False):
         data = full.subsample_pattern(case['desc'], np.array(pattern_idx))
     else:
         data = RDMs(np.array(data_sel, dtype=float),
-                    pattern_descriptors={'stim': np.array([STIM[p] for p in positions])})
+                    pattern_descriptors={'stim': np.array([STIM[p] for p in positions]),
+                                         'big': np.array([BIG[p] for p in positions])})
     sig_lib, sig_ref = _sigma(case['sigma'], len(positions), seed)
+    if sig_lib is not None and sc_s != 1.0:
+        sig_lib = sig_lib * sc_s
+        sig_ref = sig_ref * sc_s
     return {'model': model, 'data': data, 'positions': positions, 'data_sel': data_sel,
             'basis': basis, 'data_full': data_full, 'kind': kind, 'sig_lib': sig_lib,
             'sig_ref': sig_ref,
@@ -342,10 +364,72 @@ def _build(case, seed, basis=None, data_full=None, lib_subsample=False):
             'pattern_descriptor': None if pattern_idx is None else case['desc']}
 
 
-def _call(case, S, seed, calls_out=None, env=None):
-    """one real fitter call under the intercepted random source"""
+class DoesNotTerminate(Exception):
+    """a library call exceeded its time limit (closed-form fitters 3 s - they need milliseconds -, others 120 s)"""
+
+
+def _alarm(signum, frame):
+    raise DoesNotTerminate('library call still running after the time limit')
+
+
+@contextlib.contextmanager
+def _time_limit(seconds):
+    try:
+        old = signal.signal(signal.SIGALRM, _alarm)
+    except ValueError:          # not in the main thread: no limit
+        yield
+        return
+    signal.setitimer(signal.ITIMER_REAL, seconds)
+    try:
+        yield
+    finally:
+        signal.setitimer(signal.ITIMER_REAL, 0)
+        signal.signal(signal.SIGALRM, old)
+
+
+def _arr_bits(a):
+    a = np.asarray(a)
+    return str(a.dtype).encode() + str(a.shape).encode() + np.ascontiguousarray(a).tobytes()
+
+
+def _snapshot(S):
+    """bit-level state of every caller-owned argument of a fitter call"""
+    m = S['model']
+    parts = {'model': [m.rdm, m.rdm_obj.dissimilarities] +
+             [v for _, v in sorted(m.rdm_obj.pattern_descriptors.items())],
+             'data': [S['data'].dissimilarities] +
+             [v for _, v in sorted(S['data'].pattern_descriptors.items())]}
+    if S['sig_lib'] is not None:
+        parts['sigma_k'] = [S['sig_lib']]
+    if S['pattern_idx'] is not None:
+        parts['pattern_idx'] = [S['pattern_idx']]
+    for name, a in (S.get('watch') or {}).items():
+        parts[name] = [a]
+    return {name: b'|'.join(_arr_bits(a) for a in arrs) for name, arrs in parts.items()}
+
+
+def _predict_both(ctx, model, theta, sig, case):
+    """model.predict(theta), model.predict_rdm(theta); theta (if an array) and the model's basis
+    must be bit-identical after each of the two calls"""
+    out = []
+    for meth in ('predict', 'predict_rdm'):
+        t_before = _arr_bits(theta) if isinstance(theta, np.ndarray) else None
+        m_before = _arr_bits(model.rdm) + _arr_bits(model.rdm_obj.dissimilarities)
+        out.append(getattr(model, meth)(theta))
+        if t_before is not None and _arr_bits(theta) != t_before:
+            ctx.fail('%s|%s|modifies-argument:theta' % (sig, meth), case, 'theta changed by %s' % meth)
+        if _arr_bits(model.rdm) + _arr_bits(model.rdm_obj.dissimilarities) != m_before:
+            ctx.fail('%s|%s|modifies-argument:model' % (sig, meth), case, 'model basis changed by %s' % meth)
+    return out
+
+
+def _call(case, S, seed, calls_out=None, env=None, ctx=None):
+    """one real fitter call under the intercepted random source; with ctx: every caller-owned
+    argument (model basis and descriptors, training RDMs, sigma_k, pattern_idx, extra watched
+    arrays) must be bit-identical afterwards"""
     from rsatoolbox.model import fitter as F
     f = case['fitter']
+    before = _snapshot(S) if ctx is not None else None
     kw = dict(method=case['method'], pattern_idx=S['pattern_idx'],
               pattern_descriptor=S['pattern_descriptor'], sigma_k=S['sig_lib'])
     uses_rand = f in RAND_FITTERS or f == 'Model.fit'
@@ -356,7 +440,7 @@ def _call(case, S, seed, calls_out=None, env=None):
             prefix = [int(case.get('menu', 0))] * 16
         env = choice.Env(prefix)
     rng = RngEnv(env, menu=menu)
-    with installed(rng):
+    with installed(rng), _time_limit(3 if f in CLOSED else 120):
         if f.startswith('Model.fit'):
             theta = S['model'].fit(S['data'], **kw)
         elif f in ('fit_select', 'fit_interpolate'):
@@ -366,6 +450,12 @@ def _call(case, S, seed, calls_out=None, env=None):
                                   normalize=bool(case.get('normalize', True)), **kw)
     if calls_out is not None:
         calls_out.extend(rng.calls)
+    if ctx is not None:
+        after = _snapshot(S)
+        for name in before:
+            if before[name] != after[name]:
+                ctx.fail('%s|method=%s|modifies-argument:%s' % (_fname(case), case['method'], name), case,
+                         'the %s passed to the call is not bit-identical afterwards' % name)
     return theta
 
 
@@ -380,11 +470,17 @@ def _cfg(case):
     sigma_k form and single RDM / stack separate their defects; the search-based fitters fail
     data-dependently (which method / stack size shows a given defect changes with the fill), so
     their class is only the measure family and whether a sigma_k is given."""
+    if case.get('scale'):       # extreme magnitudes: a class of their own - such defects (absolute
+        # tolerances) follow the magnitude and the code path (plain / whitened), not the method
+        f_ = [x for x in case['scale'] if x != 1.0]
+        return 'measure=%s,scale=%s' % ('whitened' if 'cov' in case['method'] else 'plain',
+                                        'small' if all(x < 1 for x in f_) else
+                                        'large' if all(x > 1 for x in f_) else 'mixed')
     if case['fitter'] in SEARCH + ('Model.fit', 'Model.fit/interpolate'):
-        return 'measure=%s-type,sigma_k=%s' % ('corr' if 'corr' in case['method'] else 'cosine',
-                                               'none' if case['sigma'] == 'none' else 'given')
-    return 'method=%s,sigma_k=%s,data=%s' % (case['method'], case['sigma'],
-                                            'single' if case['n_data'] == 1 else 'stack')
+        return 'measure=%s-type,sigma_k=%s%s' % ('corr' if 'corr' in case['method'] else 'cosine',
+                                                 'none' if case['sigma'] == 'none' else 'given', '')
+    return 'method=%s,sigma_k=%s,data=%s%s' % (case['method'], case['sigma'],
+                                              'single' if case['n_data'] == 1 else 'stack', '')
 
 
 # ----------------------------------------------------------------------------- judging
@@ -523,7 +619,12 @@ def _run_fit(case, ctx):
     theta = None
     with g:
         calls = []
-        theta = _call(case, S, seed, calls)
+        try:
+            theta = _call(case, S, seed, calls, ctx=ctx)
+        except DoesNotTerminate as e:
+            ctx.case({k_: v for k_, v in case.items() if k_ != 'perturb'})
+            ctx.fail(sigp + '|does-not-terminate', case, 'the fitter call did not return: %s' % e)
+            return 'raised'
         ctx.case({k_: v for k_, v in case.items() if k_ != 'perturb'})
         if S['kind'] == 'weighted':
             _judge_weighted(case, ctx, S, theta, fname)
@@ -551,7 +652,7 @@ def _perturb(case, ctx, S, theta, fname):
     sig0 = '%s|method=%s' % (fname, case['method'])
     with ctx.guard(sig0 + ',perturbed-unselected', case):
         S0 = _build(case, seed, lib_subsample=True)
-        t0 = _call(case, S0, seed)
+        t0 = _call(case, S0, seed, ctx=ctx)
         ctx.case(dict(case, law='training data selected by the library'))
         if not _same_bits(theta, t0):
             ctx.fail('subsample_pattern|training-data|differs-from-reference-selection', case,
@@ -582,7 +683,7 @@ def _perturb(case, ctx, S, theta, fname):
             if not changed:
                 continue
             Sp = _build(case, seed, basis=basis, data_full=data_full, lib_subsample=True)
-            tp = _call(case, Sp, seed)
+            tp = _call(case, Sp, seed, ctx=ctx)
             tag = var[0] if len(var) == 1 else ('all', len(var))
             ctx.case(dict(case, law='perturb', entry=tag))
             if not _same_bits(t0, tp):
@@ -606,8 +707,8 @@ def _run_order(case, ctx):
     rep = dict(case, idx=case['rep_idx'])
     del rep['rep_idx']
     with ctx.guard('%s|%s' % (fname, _cfg(case)), case):
-        t_rep = _call(rep, _build(rep, seed), seed)
-        t = _call(case, S, seed)
+        t_rep = _call(rep, _build(rep, seed), seed, ctx=ctx)
+        t = _call(case, S, seed, ctx=ctx)
         ctx.case(dict(case, law='order'))
         if _same_bits(t, t_rep):
             return
@@ -649,6 +750,21 @@ def run_shard(shard, ctx):
         return
     if kind == 'sequences':
         _run_sequences_shard(shard, ctx)
+        return
+    if kind == 'scale':
+        n = shard['n_cond']
+        idxs = [None, [n - 1, n - 2] + list(range(n - 3, -1, -1))[:-1] + [n - 2]] if n == 5 else [None]
+        if ctx.tier == 'thorough':
+            idxs = [r for r, _ in _index_plan(shard, 'quick')]
+        s_sig = SCALES['sigma'] if shard['sigma'] == 'spd' else (1.0,)
+        for idx in idxs:
+            for sc in itertools.product(SCALES['data'], SCALES['basis'], s_sig):
+                if sc == (1.0, 1.0, 1.0):
+                    continue
+                c = dict(shard, kind='fit', idx=idx, scale=list(sc), perturb=False)
+                if shard['fitter'] in ('fit_regress', 'fit_regress_nn'):
+                    c['normalize'] = bool(sc[0] >= 1)     # both switches over the family
+                run_case(c, ctx)
         return
     tier = ctx.tier
     base = {k_: v for k_, v in shard.items() if k_ not in ('plan',)}
@@ -777,8 +893,21 @@ def _run_nnls(case, ctx):
     sigp = 'fit_regress_nn|%s' % _cfg(jc)
     with ctx.guard(sigp, case):
         model = M.ModelWeighted('m', RDMs(np.array(basis, dtype=float)))
-        theta = np.asarray(F.fit_regress_nn(model, RDMs(np.array(data, dtype=float)), method=method,
-                                            sigma_k=sig_lib, ridge_weight=0, normalize=True))
+        Sn = {'model': model, 'data': RDMs(np.array(data, dtype=float)), 'sig_lib': sig_lib,
+              'pattern_idx': None}
+        before = _snapshot(Sn)
+        try:
+            with _time_limit(3):
+                theta = np.asarray(F.fit_regress_nn(model, Sn['data'], method=method,
+                                                    sigma_k=sig_lib, ridge_weight=0, normalize=True))
+        except DoesNotTerminate as e:
+            ctx.case(case)
+            ctx.fail(sigp + '|does-not-terminate', case, 'the fitter call did not return: %s' % e)
+            return
+        for name, bits in _snapshot(Sn).items():
+            if bits != before[name]:
+                ctx.fail('fit_regress_nn|method=%s|modifies-argument:%s' % (method, name), case,
+                         'the %s passed to the call is not bit-identical afterwards' % name)
         ctx.case(case)
         if theta.shape != (case['k'],) or not np.all(np.isfinite(theta)):
             ctx.fail(sigp + '|theta-shape-or-nonfinite', case, 'theta=%r' % (theta,))
@@ -864,28 +993,17 @@ def _run_sequence(case, ctx):
         if key in data_objs:
             S['data'] = data_objs[key]      # the same training data object is re-used as well
         data_objs[key] = S['data']
-        data_before = _bits(S['data'].dissimilarities)
-        holders = lambda: (('model.rdm', model.rdm), ('model.rdm_obj', model.rdm_obj.dissimilarities),
-                           ("caller's array", arr))
-        before = [_bits(a) for _, a in holders()]
+        S['watch'] = {'basis-array': arr}
         fname = fitter
         tag = dict(case, step=i)
         with ctx.guard('%s|%s,sequence' % (fname, _cfg(sc)), tag):
-            theta = _call(sc, S, seed)
+            theta = _call(dict(sc, sequence=case['steps'], step=i), S, seed, ctx=ctx)
             ctx.case(tag)
-            if _bits(S['data'].dissimilarities) != data_before:
-                ctx.fail('%s|method=%s|modifies-training-data' % (fname, method), tag,
-                         'training RDMs changed by the fit')
-            changed = [w for (w, a), b in zip(holders(), before) if _bits(a) != b]
-            if changed:      # blamed on the call that did it; later steps see the damage below
-                ctx.fail('%s|method=%s|modifies-model-basis' % (fname, method), tag,
-                         '%s changed during step %d %r (no longer the basis RDMs the model was built from); '
-                         'max change %.4g' % (changed, i, case['steps'][i],
-                                              float(np.nanmax(np.abs(np.asarray(model.rdm, float) - orig)))))
             tt = int(theta) if mkind == 'select' else np.asarray(theta, dtype=float)
             want = ref.predict(mkind, basis, tt)
-            got = np.asarray(model.predict(tt), dtype=float)
-            got_r = np.asarray(model.predict_rdm(tt).get_vectors(), dtype=float)
+            got, got_r = _predict_both(ctx, model, tt, 'Model%s|after-fit' % mkind.capitalize(), tag)
+            got = np.asarray(got, dtype=float)
+            got_r = np.asarray(got_r.get_vectors(), dtype=float)
             if got_r.shape != (1, len(want)) or not allclose(got, want, 1e-9) or not allclose(got_r[0], want, 1e-9):
                 ctx.fail('Model%s|after-fit|prediction-differs-from-original-basis' % mkind.capitalize(), tag,
                          'after step %d %r predict(theta_hat) is not the prediction from the basis RDMs the '
@@ -908,7 +1026,7 @@ def _explore(case, ctx):
         S = _build(base, seed)
 
         def run(env, base=base, S=S):
-            return _call(base, S, seed, env=env)
+            return _call(base, S, seed, env=env, ctx=ctx)
         with ctx.guard('fit_optimize|%s' % _cfg(base), base):
             for env, theta in choice.explore(run, bound=case['bound'], stats=stats):
                 c = dict(base, choices=env.choices)
@@ -991,8 +1109,8 @@ def _laws(case, ctx):
                 targ = t if (t is None or isinstance(t, int)) else np.array(t)
                 c = dict(sub, theta=t)
                 ctx.case(c)
-                v = np.asarray(m.predict(targ), dtype=float)
-                r = m.predict_rdm(targ)
+                v, r = _predict_both(ctx, m, targ, sigp, c)
+                v = np.asarray(v, dtype=float)
                 rv = np.asarray(r.get_vectors(), dtype=float)
                 preds.append(v)
                 ctx.outcome((cls, rep, np.round(np.nan_to_num(v, nan=-9), 6).tolist()))
@@ -1014,8 +1132,8 @@ def _laws(case, ctx):
                         ctx.fail(sigp + '|pattern-descriptor-not-carried', dict(c, key=key),
                                  'descriptor %r: %r, model has %r' % (key, got, val))
                 # dictionary round trip
-                v2 = np.asarray(m2.predict(targ), dtype=float)
-                r2 = m2.predict_rdm(targ)
+                v2, r2 = _predict_both(ctx, m2, targ, sigp + ',rebuilt-from-dict', c)
+                v2 = np.asarray(v2, dtype=float)
                 if not _eqnan(v2, v) or not _eqnan(r2.get_vectors(), rv):
                     ctx.fail(sigp + '|dict-roundtrip-predicts-differently', c, '%r vs %r' % (v2, v))
                 for key, val in expected_desc.items():
@@ -1093,7 +1211,7 @@ def _sigma_forms(case, ctx):
                  'normalize': True, 'menu': 0, 'perturb': False}
             S = _build(c, ctx.seed)
             try:
-                theta = _call(c, S, ctx.seed)
+                theta = _call(c, S, ctx.seed, ctx=ctx)
             except Exception as e:          # undocumented input form: recorded, not judged
                 res['%s/%s' % (fitter, method)] = 'rejects 1-D sigma_k: %s' % type(e).__name__
                 ctx.exclude('1-D sigma_k rejected by a fitter (form documented for no fitter)')
